@@ -100,7 +100,7 @@ impl<T: Val, const N: usize> Val for [T; N] {
     fn tree(&self) -> Value { json!({"k": "array", "i": self.iter().map(|x| x.tree()).collect::<Vec<_>>()}) }
 }
 impl<T: Val> Val for Option<T> {
-    fn gen(rng: &mut StdRng, d: u32) -> Self { if rng.gen_bool(0.4) { None } else { Some(T::gen(rng, d + 1)) } }
+    fn gen(rng: &mut StdRng, d: u32) -> Self { if d > 3 || rng.gen_bool(0.4) { None } else { Some(T::gen(rng, d + 1)) } }
     fn tree(&self) -> Value {
         match self { None => variant("None", vec![]), Some(x) => variant("Some", vec![(None, x.tree())]) }
     }
